@@ -18,6 +18,7 @@ import CBV.Lemmas.C03Hist
 import CBV.Lemmas.C03Guards
 import CBV.Lemmas.C03Trans
 import CBV.Lemmas.C03Rev
+import CBV.Lemmas.C03CalcGen
 import CBV.Gen.TC03
 
 namespace CBV.C03
@@ -1047,6 +1048,181 @@ example : returned (calculate T0 1 { c2c := some 2 } { count := some 3, end_ := 
     returned (calculate T0 1 { c2c := some (1 / 2) } { count := some 3, start := some (4 / 7) }) =
       some (some 3, some (1 / 4)) := by decide +kernel
 
+/-- (start size, total expansion) reversed, end to end with exact solver answers, **under the existence hypothesis** that
+    the reversed chop's last relation (`c2c<count+end_size` on the count and the size `s`, now the last cell) accepts a
+    rational ratio `c'` (`hroot`; that root is a different number from `1/c` — the original's ratio belongs to the
+    progression counted from its last cell `s·T`, the cells are only "never coarser", not exact — and need not be rational).
+    Then the chop `(end size s, 1/T)`, with the same count answer and the reciprocal root witnesses (`mirrorOracle`),
+    resolves to the same count and the reciprocal total expansion.  Three or more cells: for two cells the count
+    validator of the size+total relation is not mirror-symmetric (a single cell carries no expansion).  `hb`: `T` and
+    `1/T` on the same side of the `TOL` switch of that relation. -/
+theorem T_C03_invert_start_total {L s T c' : ℚ} {o : Oracle} {res : Vals} {n : ℕ}
+    (h : calculate T0 L o { start := some s, total := some T } = .ok res) (hcnt : res.count = some n) (hn : 3 ≤ n)
+    (hb : absR (T - 1) < TOL ↔ absR (1 / T - 1) < TOL)
+    (hroot : c2cCountEnd T0 (mirrorOracle o c') L n s = .ok c') :
+    ∃ res', calculate T0 L (mirrorOracle o c') { end_ := some s, total := some (1 / T) } = .ok res' ∧
+      res'.count = res.count ∧ res'.total = res.total.map (fun T => 1 / T) := by
+  obtain ⟨n', e, c, hn', he, hc, rfl⟩ := pair_start_total h
+  have : n' = n := by simpa using hcnt
+  subst this
+  obtain ⟨hL, hs, hT0, hoc, hn1, hcase⟩ := countTotalStart_ok hn'
+  have hT : 0 < T := by
+    rcases hcase with ⟨hu, _⟩ | ⟨_, hT, _⟩
+    · by_contra hneg
+      have hle : T ≤ 0 := not_lt.mp hneg
+      have h1 : absR (T - 1) = 1 - T := by unfold absR; rw [if_pos (by linarith)]; ring
+      rw [h1] at hu
+      have := TOL_lt_one
+      linarith
+    · exact hT
+  have hTi : (0 : ℚ) < 1 / T := by positivity
+  have hst : s / (1 / T) = s * T := by field_simp
+  have hcount : countTotalStart T0 (mirrorOracle o c') L (1 / T) (s * T) = .ok n' := by
+    unfold countTotalStart
+    simp only [guardLen_bind, guardSize_bind, guardRatio_bind]
+    rw [if_neg (not_le.mpr hL), if_neg (not_le.mpr (by positivity)), if_neg (ne_of_gt hTi)]
+    rcases hcase with ⟨hu, hok⟩ | ⟨hnu, _, hok⟩
+    · rw [if_pos (hb.mp hu), dMin_inv hT]
+      exact oracleCount_intro hoc hn1 hok
+    · rw [if_neg (fun hh => absurd (hb.mpr hh) (not_lt.mpr hnu)), if_neg (not_lt.mpr (le_of_lt hTi))]
+      exact oracleCount_intro hoc hn1 (countTOK_inv hn hok)
+  refine ⟨(⟨some n', some (s * T), some s, some c', some (1 / T)⟩ : Vals), ?_, rfl, rfl⟩
+  rw [calculate_ok_iff (k := 3) (by exact plan_end_total), runSteps3]
+  refine ⟨{ start := some (s * T), end_ := some s, total := some (1 / T) },
+    { count := some n', start := some (s * T), end_ := some s, total := some (1 / T) }, ?_, ?_, ?_⟩
+  · simp only [applyRel, map_ok]
+    refine ⟨s * T, ?_, rfl⟩
+    unfold startEndTotal
+    simp only [guardLen_bind, guardRatio_bind]
+    rw [if_neg (not_le.mpr hL), if_neg (ne_of_gt hTi), hst]
+    rfl
+  · simp only [applyRel, map_ok]
+    exact ⟨n', hcount, rfl⟩
+  · simp only [applyRel, map_ok]
+    exact ⟨c', hroot, rfl⟩
+
+
+example :
+    let o : Oracle := { count := some 3, c2c := some 2, w1 := some 2, w2 := some 4 }
+    returned (calculate T0 1 o { start := some (1 / 7), total := some 4 }) = some (some 3, some 4) ∧
+    c2cCountEnd T0 (mirrorOracle o (1 / 2)) 1 3 (1 / 7) = .ok (1 / 2) ∧
+    returned (calculate T0 1 (mirrorOracle o (1 / 2)) { end_ := some (1 / 7), total := some (1 / 4) }) =
+      some (some 3, some (1 / 4)) ∧
+    ¬ absR ((4 : ℚ) - 1) < TOL ∧ ¬ absR (1 / (4 : ℚ) - 1) < TOL := by decide +kernel
+
+/-- (end size, total expansion) reversed likewise: `(start size e, 1/T)` resolves to the same count and the reciprocal
+    total expansion, under the same existence hypothesis for the ratio of the reversed chop (now on the last cell `e/T`). -/
+theorem T_C03_invert_end_total {L e T c' : ℚ} {o : Oracle} {res : Vals} {n : ℕ}
+    (h : calculate T0 L o { end_ := some e, total := some T } = .ok res) (hcnt : res.count = some n) (hn : 3 ≤ n)
+    (hb : absR (T - 1) < TOL ↔ absR (1 / T - 1) < TOL)
+    (hroot : c2cCountEnd T0 (mirrorOracle o c') L n (e * (1 / T)) = .ok c') :
+    ∃ res', calculate T0 L (mirrorOracle o c') { start := some e, total := some (1 / T) } = .ok res' ∧
+      res'.count = res.count ∧ res'.total = res.total.map (fun T => 1 / T) := by
+  obtain ⟨s, n', c, hs, hn', hc, rfl⟩ := pair_end_total h
+  have : n' = n := by simpa using hcnt
+  subst this
+  obtain ⟨_, hT0', hsv⟩ := startEndTotal_ok hs
+  obtain ⟨hL, hs0, hT0, hoc, hn1, hcase⟩ := countTotalStart_ok hn'
+  have hT : 0 < T := by
+    rcases hcase with ⟨hu, _⟩ | ⟨_, hT, _⟩
+    · by_contra hneg
+      have hle : T ≤ 0 := not_lt.mp hneg
+      have h1 : absR (T - 1) = 1 - T := by unfold absR; rw [if_pos (by linarith)]; ring
+      rw [h1] at hu
+      have := TOL_lt_one
+      linarith
+    · exact hT
+  have hTi : (0 : ℚ) < 1 / T := by positivity
+  have hse : s * T = e := by rw [hsv]; field_simp
+  have he0 : 0 < e := by rw [← hse]; positivity
+  have hcount : countTotalStart T0 (mirrorOracle o c') L (1 / T) e = .ok n' := by
+    unfold countTotalStart
+    simp only [guardLen_bind, guardSize_bind, guardRatio_bind]
+    rw [if_neg (not_le.mpr hL), if_neg (not_le.mpr he0), if_neg (ne_of_gt hTi)]
+    rcases hcase with ⟨hu, hok⟩ | ⟨hnu, _, hok⟩
+    · rw [if_pos (hb.mp hu), ← hse, dMin_inv hT]
+      exact oracleCount_intro hoc hn1 hok
+    · rw [if_neg (fun hh => absurd (hb.mpr hh) (not_lt.mpr hnu)), if_neg (not_lt.mpr (le_of_lt hTi)), ← hse]
+      exact oracleCount_intro hoc hn1 (countTOK_inv hn hok)
+  refine ⟨(⟨some n', some e, some (e * (1 / T)), some c', some (1 / T)⟩ : Vals), ?_, rfl, rfl⟩
+  rw [calculate_ok_iff (k := 2) (by exact plan_start_total), runSteps3]
+  refine ⟨{ count := some n', start := some e, total := some (1 / T) },
+    { count := some n', start := some e, end_ := some (e * (1 / T)), total := some (1 / T) }, ?_, ?_, ?_⟩
+  · simp only [applyRel, map_ok]
+    exact ⟨n', hcount, rfl⟩
+  · simp only [applyRel, map_ok]
+    refine ⟨e * (1 / T), ?_, rfl⟩
+    unfold endStartTotal
+    simp only [guardLen_bind, guardRatio_bind]
+    rw [if_neg (not_le.mpr hL), if_neg (ne_of_gt hTi)]
+    rfl
+  · simp only [applyRel, map_ok]
+    exact ⟨c', hroot, rfl⟩
+
+
+example :
+    let o : Oracle := { count := some 3, c2c := some 2, w1 := some 2, w2 := some 4 }
+    returned (calculate T0 1 o { end_ := some (4 / 7), total := some 4 }) = some (some 3, some 4) ∧
+    c2cCountEnd T0 (mirrorOracle o (1 / 2)) 1 3 (4 / 7 * (1 / 4)) = .ok (1 / 2) ∧
+    returned (calculate T0 1 (mirrorOracle o (1 / 2)) { start := some (4 / 7), total := some (1 / 4) }) =
+      some (some 3, some (1 / 4)) := by decide +kernel
+
+/-- (start size, end size) reversed: the chop with the two sizes exchanged resolves to the same count and the reciprocal
+    total expansion `s/e`, under the same existence hypothesis (the ratio of the reversed chop on its last cell `s`).
+    With this all ten pairs are proved end to end. -/
+theorem T_C03_invert_start_end {L s e c' : ℚ} {o : Oracle} {res : Vals} {n : ℕ}
+    (h : calculate T0 L o { start := some s, end_ := some e } = .ok res) (hcnt : res.count = some n) (hn : 3 ≤ n)
+    (hb : absR (e / s - 1) < TOL ↔ absR (s / e - 1) < TOL)
+    (hroot : c2cCountEnd T0 (mirrorOracle o c') L n s = .ok c') :
+    ∃ res', calculate T0 L (mirrorOracle o c') { start := some e, end_ := some s } = .ok res' ∧
+      res'.count = res.count ∧ res'.total = res.total.map (fun T => 1 / T) := by
+  obtain ⟨T, n', c, hT, hn', hc, rfl⟩ := pair_start_end h
+  have : n' = n := by simpa using hcnt
+  subst this
+  obtain ⟨hL, hs, he, hTv⟩ := totalStartEnd_ok hT
+  subst hTv
+  obtain ⟨_, _, _, hoc, hn1, hcase⟩ := countTotalStart_ok hn'
+  have hTpos : 0 < e / s := by positivity
+  have hinv : 1 / (e / s) = s / e := by field_simp
+  have hse : s * (e / s) = e := by field_simp
+  have hcount : countTotalStart T0 (mirrorOracle o c') L (s / e) e = .ok n' := by
+    unfold countTotalStart
+    simp only [guardLen_bind, guardSize_bind, guardRatio_bind]
+    rw [if_neg (not_le.mpr hL), if_neg (not_le.mpr he), if_neg (ne_of_gt (by positivity))]
+    rcases hcase with ⟨hu, hok⟩ | ⟨hnu, _, hok⟩
+    · rw [if_pos (hb.mp hu)]
+      have := dMin_inv (s := s) hTpos
+      rw [hinv, hse] at this
+      rw [this]
+      exact oracleCount_intro hoc hn1 hok
+    · rw [if_neg (fun hh => absurd (hb.mpr hh) (not_lt.mpr hnu)), if_neg (not_lt.mpr (le_of_lt (by positivity)))]
+      have := countTOK_inv hn hok
+      rw [hinv, hse] at this
+      exact oracleCount_intro hoc hn1 this
+  refine ⟨(⟨some n', some e, some s, some c', some (s / e)⟩ : Vals), ?_, rfl, ?_⟩
+  · rw [calculate_ok_iff (k := 3) (by exact plan_start_end), runSteps3]
+    refine ⟨{ start := some e, end_ := some s, total := some (s / e) },
+      { count := some n', start := some e, end_ := some s, total := some (s / e) }, ?_, ?_, ?_⟩
+    · simp only [applyRel, map_ok]
+      refine ⟨s / e, ?_, rfl⟩
+      unfold totalStartEnd
+      simp only [guardLen_bind, guardSize_bind]
+      rw [if_neg (not_le.mpr hL), if_neg (not_le.mpr he), if_neg (not_le.mpr hs)]
+      rfl
+    · simp only [applyRel, map_ok]
+      exact ⟨n', hcount, rfl⟩
+    · simp only [applyRel, map_ok]
+      exact ⟨c', hroot, rfl⟩
+  · simp only [Option.map_some, hinv]
+
+
+example :
+    let o : Oracle := { count := some 3, c2c := some 2, w1 := some 2, w2 := some 4 }
+    returned (calculate T0 1 o { start := some (1 / 7), end_ := some (4 / 7) }) = some (some 3, some 4) ∧
+    c2cCountEnd T0 (mirrorOracle o (1 / 2)) 1 3 (1 / 7) = .ok (1 / 2) ∧
+    returned (calculate T0 1 (mirrorOracle o (1 / 2)) { start := some (4 / 7), end_ := some (1 / 7) }) =
+      some (some 3, some (1 / 4)) := by decide +kernel
+
 /-! ### 7b. histories on one `Chop` object: `calculate` keeps no memory -/
 
 /-- Every `calculate` inside a history of calls on one object answers exactly what a fresh chop with the current
@@ -1395,6 +1571,30 @@ example : (solverFn (relEnv ⟨.c2c, .count, .start⟩ 1 3 (1 / 7)) body_c2c_cou
     (solverFn (relEnv ⟨.c2c, .count, .start⟩ 1 3 (1 / 7)) body_c2c_count_start 3).toOption = some 6 ∧
     (solverFn (relEnv ⟨.c2c, .count, .end_⟩ 1 3 (4 / 7)) body_c2c_count_end 2).toOption = some 0 ∧
     rootOK 0 (1 / 7) 2 1 3 = true ∧ rootOK 0 (1 / 7) 3 1 3 = false := by decide +kernel
+
+/-- `Chop.calculate` interpreted statement by statement from the source as it is now.  `cbv/tables/c03.py` matches every
+    statement of the method (all non-`None` fields start as known; `for _ in range(N)`: first the completeness test on the
+    key set with `return data["count"], data["total_expansion"]`, then one pass over
+    `ChopRelation.get_possible_combinations()` — skip when the output is known, call
+    `function(length, data[input_1], data[input_2])` when both inputs are known and mark the output known; `raise` after the
+    loop) and emits its constants; `calcGen` runs that loop as the source does — the set `calculated` and the dictionary
+    `data` move together, a relation that raises aborts — on the generated relation table.  For every chop, edge length,
+    tolerance and solver answers it is the model's `calculate` (which first plans on the names, then makes the calls):
+    planning ahead and running interleaved are the same thing. -/
+theorem T_C03_translated_calculate (t : Tol) (L : ℚ) (o : Oracle) (v : Vals) :
+    calcGen CBV.Gen.c03CalcLoop t L o v = some (calculate t L o v) :=
+  calcGen_eq t L o v
+
+/-- the interpretation computes, and reacts to its table: one round is not enough for (count, start size), an argument
+    order other than `(length, input_1, input_2)` or another returned pair is refused -/
+example :
+    (calcGen CBV.Gen.c03CalcLoop T0 1 { c2c := some 2 } { count := some 3, start := some (1 / 7) }).map returned =
+      some (some (some 3, some 4)) ∧
+    (calcGen (1, ["c2c_expansion", "count", "end_size", "start_size", "total_expansion"], ("count", "total_expansion"),
+        ("length", "input_1", "input_2")) T0 1 { c2c := some 2 } { count := some 3, start := some (1 / 7) }).map returned =
+      some none ∧
+    calcGen (12, ["c2c_expansion", "count", "end_size", "start_size", "total_expansion"], ("count", "total_expansion"),
+        ("length", "input_2", "input_1")) T0 1 {} { count := some 3 } = none := by decide +kernel
 
 /-- `Chop.__post_init__` interpreted from the source as it is now (`cbv/tables/c03.py` reads the list of counted
     attributes, the threshold of `len(params) - params.count(None) < 2`, the defaulted attribute with its value and the
